@@ -276,6 +276,8 @@ class XYFit(FitBase):
 
         :rtype: numpy.ndarray
         """
+        self._param_model.parameters = self.parameter_values  # this is lazy, so just do it
+        self._param_model.x = self.x_model
         return self._param_model.data
 
     @property
